@@ -320,6 +320,17 @@ Definition no_repoint_to_added (cs : list change) : Prop :=
   forall t tcs from to, In (ModifyTable t tcs) cs -> In (ModifyFK from to) tcs ->
     ~ In (t_name (f_ref to)) (flat_map adds cs).
 
+(* exact form: such a re-pointed key is harmless when the created parent comes earlier in the change list *)
+Definition repoint_ordered (cs : list change) : Prop :=
+  forall pre t tcs post from to, cs = pre ++ ModifyTable t tcs :: post -> In (ModifyFK from to) tcs ->
+    In (t_name (f_ref to)) (flat_map adds cs) -> In (t_name (f_ref to)) (flat_map adds pre).
+
+Lemma no_repoint_ordered cs : no_repoint_to_added cs -> repoint_ordered cs.
+Proof.
+  intros H pre t tcs post from to E Hin Ha. exfalso.
+  apply (H t tcs from to); [rewrite E; apply in_or_app; right; left; reflexivity|exact Hin|exact Ha].
+Qed.
+
 Lemma adds_sub_names l n : In n (flat_map adds l) -> In n (map nm l).
 Proof.
   intros H. apply in_flat_map in H. destruct H as [x [Hx Hn]]. apply in_map_iff. exists x.
@@ -584,7 +595,7 @@ Section WithWF.
           destruct (Nat.eq_dec (t_name (f_ref f)) (nm x)) as [E|E].
           * right. assert (Exy : AddTable t' fks' = x) by (apply names_inj; [assumption|assumption|unfold nm in *; simpl; congruence]).
             subst x. simpl. simpl in E. rewrite E. reflexivity.
-          * left. exists (AddTable t' fks'). split; [apply inP; exact Hy|]. split; [simpl; rewrite Hn; reflexivity|].
+          * left. left. exists (AddTable t' fks'). split; [apply inP; exact Hy|]. split; [simpl; rewrite Hn; reflexivity|].
             pose proof (decl_key_lt x f Hx Hf E) as Hlt. unfold ra, sort_key at 1. simpl. rewrite Hn.
             destruct (is_drop x) eqn:Ed; [|lia]. destruct x; simpl in Hf; try discriminate. destruct Hf.
       - (* modified tables *)
@@ -888,12 +899,46 @@ Proof.
   - apply IH; try assumption. apply NoDup_app_r in Hn. exact Hn.
 Qed.
 
+Lemma NoDup_split_unique {A} (p1 q1 p2 q2 : list A) x :
+  p1 ++ x :: q1 = p2 ++ x :: q2 -> NoDup (p1 ++ x :: q1) -> p1 = p2.
+Proof.
+  revert p2. induction p1 as [|a p1 IH]; intros p2 E Hn.
+  - destruct p2 as [|b p2]; [reflexivity|]. simpl in E. injection E as Eb Eq. subst b. exfalso.
+    simpl in Hn. inversion Hn as [|? ? Hx _]; subst. apply Hx. apply in_or_app. right. left. reflexivity.
+  - destruct p2 as [|b p2]; simpl in E; injection E as Eb Eq.
+    + subst a. exfalso. simpl in Hn. inversion Hn as [|? ? Hx _]; subst. apply Hx. apply in_or_app. right. left. reflexivity.
+    + subst b. f_equal. apply (IH p2 Eq). simpl in Hn. inversion Hn; assumption.
+Qed.
+
+Lemma adds_filter_nd l : flat_map adds (filter (fun x => negb (is_drop x)) l) = flat_map adds l.
+Proof.
+  induction l as [|x l IH]; simpl; [reflexivity|]. destruct x; simpl; rewrite IH; reflexivity.
+Qed.
+
+Lemma planned_split cs1 t tcs cs2 : filter not_addfk tcs <> [] ->
+  exists B, partition_changes (detachReferences (cs1 ++ ModifyTable t tcs :: cs2)) =
+            filter (fun x => negb (is_drop x)) (flat_map det_planned cs1) ++ ModifyTable t (filter not_addfk tcs) :: B.
+Proof.
+  intros Hne. unfold partition_changes, detachReferences.
+  assert (Ep : det_planned (ModifyTable t tcs) = [ModifyTable t (filter not_addfk tcs)]).
+  { simpl. unfold not_addfk in *. destruct (filter (fun c => negb (is_addfk c)) tcs); [congruence|reflexivity]. }
+  rewrite flat_map_app.
+  change (flat_map det_planned (ModifyTable t tcs :: cs2))
+    with (det_planned (ModifyTable t tcs) ++ flat_map det_planned cs2).
+  rewrite Ep. rewrite <- !app_assoc. rewrite filter_app.
+  change (filter (fun c => negb (is_drop c)) ([ModifyTable t (filter not_addfk tcs)] ++
+            flat_map det_planned cs2 ++ flat_map det_deferred (cs1 ++ ModifyTable t tcs :: cs2)))
+    with (ModifyTable t (filter not_addfk tcs) :: filter (fun c => negb (is_drop c)) (
+            flat_map det_planned cs2 ++ flat_map det_deferred (cs1 ++ ModifyTable t tcs :: cs2))).
+  rewrite <- app_assoc. simpl. eexists. reflexivity.
+Qed.
+
 Section Cyclic.
   Variable cs : list change.
   Variable c : cat.
   Hypothesis HWF : WF cs.
   Hypothesis Hcons : consistent c cs.
-  Hypothesis Hex : no_repoint_to_added cs.
+  Hypothesis Hex : repoint_ordered cs.
 
   Let L := detachReferences cs.
 
@@ -1039,15 +1084,26 @@ Section Cyclic.
           rewrite (self_name (AddTable t fks) t fks f Hsrc eq_refl eq_refl Hin Hp). reflexivity.
         * exfalso. simpl in Hf. apply in_flat_map in Hf. destruct Hf as [tc [Htc Hf]]. apply in_map_iff in Htc.
           destruct Htc as [g [<- _]]. destruct Hf.
-        * (* in-place modification: only a re-pointed key can be declared here *)
-          exfalso. simpl in Hf. apply in_flat_map in Hf. destruct Hf as [tc [Htc Hf]]. apply filter_In in Htc.
+        * (* in-place modification: only a re-pointed key can be declared here; its created parent
+             comes earlier in the change list, hence earlier among the in-place changes of the plan *)
+          left. right. intros pre' post' El.
+          simpl in Hf. apply in_flat_map in Hf. destruct Hf as [tc [Htc Hf]]. apply filter_In in Htc.
           destruct Htc as [Htc Hna]. destruct tc as [g|g|from to|k]; simpl in Hf; try (destruct Hf; fail).
           -- discriminate.
-          -- destruct Hf as [<-|[]]. apply (Hex t tcs from to Hsrc Htc H).
-        * left. destruct (created_rank0 _ H) as [y [Hy [Ha Hr]]]. exists y. split; [exact Hy|split; [exact Ha|]].
+          -- destruct Hf as [<-|[]].
+             destruct (in_split _ _ Hsrc) as [cs1 [cs2 Ecs]].
+             pose proof (Hex cs1 t tcs cs2 from to Ecs Htc H) as Hbefore.
+             assert (Hne : filter not_addfk tcs <> []) by assumption.
+             destruct (planned_split cs1 t tcs cs2 Hne) as [B EB].
+             unfold L in El. rewrite Ecs in El. rewrite EB in El.
+             assert (Epre : filter (fun x => negb (is_drop x)) (flat_map det_planned cs1) = pre').
+             { apply (NoDup_split_unique _ _ _ _ _ El). rewrite <- EB, <- Ecs.
+               apply (Permutation_NoDup (Permutation_sym (partition_perm L))). exact cyc_NoDup. }
+             rewrite <- Epre, adds_filter_nd, planned_adds. exact Hbefore.
+        * left. left. destruct (created_rank0 _ H) as [y [Hy [Ha Hr]]]. exists y. split; [exact Hy|split; [exact Ha|]].
           rewrite Hr. simpl. rewrite forallb_addfk_mapadd. lia.
         * destruct Hf.
-        * left. destruct (created_rank0 _ H) as [y [Hy [Ha Hr]]]. exists y. split; [exact Hy|split; [exact Ha|]].
+        * left. left. destruct (created_rank0 _ H) as [y [Hy [Ha Hr]]]. exists y. split; [exact Hy|split; [exact Ha|]].
           rewrite Hr. simpl. rewrite forallb_addfk_fks. lia.
     - (* modified tables *)
       intros t tcs Hx. apply (proj1 (partition_in L _)) in Hx.
@@ -1145,29 +1201,34 @@ Proof.
 Qed.
 
 (** safe: for every list SortChanges may receive from DetachCycles (any tie-break of sort.Slice) *)
+Theorem safe_ordered cs c S :
+  WF cs -> consistent c cs ->
+  (sortMap cs = SMCycle -> repoint_ordered cs) ->
+  detach_spec cs S ->
+  SortChanges S = Some (partition_changes S) /\ split_ok (partition_changes S) c.
+Proof.
+  intros HWF Hcons Hex. unfold detach_spec. destruct (sortMap cs) as [| |sorted] eqn:Esm; intros HS; [destruct HS| |].
+  - subst S. split.
+    + apply SortChanges_backward. apply (cyc_backward cs HWF).
+    + apply (cyc_split cs c HWF Hcons (Hex eq_refl)).
+  - destruct HS as [Hp Hs]. split.
+    + apply SortChanges_backward. apply (acyc_backward cs HWF sorted S Esm Hp Hs).
+    + apply (acyc_split cs HWF c sorted S Hcons Esm Hp Hs).
+Qed.
+
+Lemma except_ordered cs :
+  (sortMap cs = SMCycle -> no_repoint_to_added cs) -> (sortMap cs = SMCycle -> repoint_ordered cs).
+Proof. intros H E. apply no_repoint_ordered. apply H. exact E. Qed.
+
 Theorem safe_except cs c S :
   WF cs -> consistent c cs ->
   (sortMap cs = SMCycle -> no_repoint_to_added cs) ->
   detach_spec cs S ->
   SortChanges S = Some (partition_changes S) /\ exists c', replay (partition_changes S) c = Some c'.
 Proof.
-  intros HWF Hcons Hex. unfold detach_spec. destruct (sortMap cs) as [| |sorted] eqn:Esm; intros HS; [destruct HS| |].
-  - subst S. split.
-    + apply SortChanges_backward. apply (cyc_backward cs HWF).
-    + apply (cyc_replay cs c HWF Hcons (Hex eq_refl)).
-  - destruct HS as [Hp Hs]. split.
-    + apply SortChanges_backward. apply (acyc_backward cs HWF sorted S Esm Hp Hs).
-    + apply (acyc_replay cs HWF c sorted S Hcons Esm Hp Hs).
-Qed.
-
-Theorem safe_except_split cs c S :
-  WF cs -> consistent c cs ->
-  (sortMap cs = SMCycle -> no_repoint_to_added cs) ->
-  detach_spec cs S -> split_ok (partition_changes S) c.
-Proof.
-  intros HWF Hcons Hex. unfold detach_spec. destruct (sortMap cs) as [| |sorted] eqn:Esm; intros HS; [destruct HS| |].
-  - subst S. apply (cyc_split cs c HWF Hcons (Hex eq_refl)).
-  - destruct HS as [Hp Hs]. apply (acyc_split cs HWF c sorted S Hcons Esm Hp Hs).
+  intros HWF Hcons Hex HS.
+  destruct (safe_ordered cs c S HWF Hcons (except_ordered cs Hex) HS) as [H1 H2].
+  split; [exact H1|apply (split_replay_ok _ _ H2)].
 Qed.
 
 Theorem plan_safe_except cs c :
@@ -1178,4 +1239,127 @@ Proof.
   intros HWF Hcons Hex. destruct (DetachCycles_total cs) as [S HS].
   destruct (safe_except cs c S HWF Hcons Hex (DetachCycles_spec cs S HS)) as [H1 [c' H2]].
   exists (partition_changes S), c'. split; [|exact H2]. unfold plan. rewrite HS, H1. reflexivity.
+Qed.
+
+(** the exception is exact: with a cycle, the plan replays iff every re-pointed key whose new parent
+    is created by the change set comes after that AddTable in the change list *)
+Lemma replay_tcs_some_tabs t : forall tcs st c', replay_tcs t st tcs = Some c' ->
+  forall f, In f (flat_map tc_added tcs) -> In (t_name (f_ref f)) (c_tabs st).
+Proof.
+  induction tcs as [|tc tcs IH]; intros st c' H f Hf; [destruct Hf|].
+  simpl in H. destruct (replay_tc t st tc) as [c1|] eqn:E; [|discriminate].
+  simpl in Hf. apply in_app_or in Hf. destruct Hf as [Hf|Hf].
+  - destruct tc as [g|g|from to|k]; simpl in Hf; try (destruct Hf; fail); destruct Hf as [<-|[]]; simpl in E.
+    + destruct (mem (t_name (f_ref g)) (c_tabs st)) eqn:Em; [apply mem_In; exact Em|discriminate].
+    + destruct (mem (t_name (f_ref to)) (c_tabs st)) eqn:Em; [apply mem_In; exact Em|discriminate].
+  - assert (Et : c_tabs c1 = c_tabs st).
+    { destruct tc; simpl in E; try (destruct (mem _ _)); inversion E; reflexivity. }
+    rewrite <- Et. apply (IH c1 c' H f Hf).
+Qed.
+
+Lemma cyc_replay_ordered cs c :
+  WF cs -> consistent c cs ->
+  (exists c', replay (partition_changes (detachReferences cs)) c = Some c') -> repoint_ordered cs.
+Proof.
+  intros HWF Hcons [c' Hr] pre t tcs post from to Ecs Hin Ha.
+  destruct (in_dec Nat.eq_dec (t_name (f_ref to)) (flat_map adds pre)) as [Hyes|Hno]; [exact Hyes|exfalso].
+  assert (Hrest : In (ModifyFK from to) (filter not_addfk tcs)) by (apply filter_In; split; [exact Hin|reflexivity]).
+  assert (Hne : filter not_addfk tcs <> []) by (intros E; rewrite E in Hrest; destruct Hrest).
+  destruct (planned_split pre t tcs post Hne) as [B EB]. rewrite <- Ecs in EB. rewrite EB in Hr.
+  rewrite replay_app in Hr.
+  destruct (replay (filter (fun x => negb (is_drop x)) (flat_map det_planned pre)) c) as [st|] eqn:Est; [|discriminate].
+  simpl in Hr. destruct (mem (t_name t) (c_tabs st)); [|discriminate].
+  destruct (replay_tcs (t_name t) st (filter not_addfk tcs)) as [c1|] eqn:Etcs; [|discriminate].
+  assert (Hto : In to (flat_map tc_added (filter not_addfk tcs))).
+  { apply in_flat_map. exists (ModifyFK from to). split; [exact Hrest|left; reflexivity]. }
+  pose proof (replay_tcs_some_tabs _ _ _ _ Etcs to Hto) as Htab.
+  apply (after_tabs_upper _ c st _ Est) in Htab. destruct Htab as [Htab|Htab].
+  - apply (cn_adds c cs Hcons _ Ha Htab).
+  - rewrite adds_filter_nd, planned_adds in Htab. contradiction.
+Qed.
+
+Theorem plan_safe_exact cs c :
+  WF cs -> consistent c cs ->
+  exists l, plan cs = POk l /\
+    ((exists c', replay l c = Some c') <-> (sortMap cs = SMCycle -> repoint_ordered cs)).
+Proof.
+  intros HWF Hcons. destruct (DetachCycles_total cs) as [S HS].
+  pose proof (DetachCycles_spec cs S HS) as Hspec.
+  assert (Hsort : SortChanges S = Some (partition_changes S)).
+  { unfold detach_spec in Hspec. destruct (sortMap cs) as [| |sorted] eqn:Esm; [destruct Hspec| |].
+    - subst S. apply SortChanges_backward. apply (cyc_backward cs HWF).
+    - destruct Hspec as [Hp Hs]. apply SortChanges_backward. apply (acyc_backward cs HWF sorted S Esm Hp Hs). }
+  exists (partition_changes S). split; [unfold plan; rewrite HS, Hsort; reflexivity|]. split.
+  - intros Hr Ecyc. unfold detach_spec in Hspec. rewrite Ecyc in Hspec. subst S.
+    apply (cyc_replay_ordered cs c HWF Hcons Hr).
+  - intros Hex. destruct (safe_ordered cs c S HWF Hcons Hex Hspec) as [_ H2]. apply (split_replay_ok _ _ H2).
+Qed.
+
+(** * Detaching loses no declared foreign key *)
+(* (child, symbol, parent) of every foreign key a change declares *)
+Definition decl (x : change) : list (nat * nat * nat) := map (fk_entry (nm x)) (added_fks x).
+
+Lemma filter_perm2 {A} (p q : A -> bool) l :
+  (forall x, q x = negb (p x)) -> Permutation (filter q l ++ filter p l) l.
+Proof.
+  intros H. rewrite (filter_ext q (fun x => negb (p x)) H). apply filter_perm.
+Qed.
+
+Lemma tc_added_mapadd l : flat_map tc_added (map AddFK l) = l.
+Proof. induction l as [|a l IH]; simpl; [reflexivity|]. rewrite IH. reflexivity. Qed.
+
+Lemma tc_added_mapdrop l : flat_map tc_added (map DropFK l) = [].
+Proof. induction l as [|a l IH]; simpl; [reflexivity|exact IH]. Qed.
+
+Lemma decl_detach1 x :
+  Permutation (flat_map decl (det_planned x) ++ flat_map decl (det_deferred x)) (decl x).
+Proof.
+  destruct x as [t fks|t fks|t tcs]; unfold decl; simpl.
+  - remember (filter (fun f => negb (ptr_eqb (f_ref f) t)) fks) as ext0 eqn:E.
+    destruct ext0 as [|e ext].
+    + simpl. rewrite !app_nil_r. apply Permutation_refl.
+    + cbn [flat_map decl added_fks app nm table_of]. rewrite !app_nil_r.
+      change (AddFK e :: map AddFK ext) with (map AddFK (e :: ext)). rewrite tc_added_mapadd, E.
+      rewrite <- map_app. apply Permutation_map.
+      apply (filter_perm2 (fun f => negb (ptr_eqb (f_ref f) t)) (fun f => ptr_eqb (f_ref f) t)).
+      intros f. rewrite negb_involutive. reflexivity.
+  - remember (filter (fun f => negb (ptr_eqb (f_ref f) t)) fks) as ext0 eqn:E.
+    destruct ext0 as [|e ext].
+    + simpl. apply Permutation_refl.
+    + cbn [flat_map decl added_fks app nm table_of]. rewrite !app_nil_r.
+      change (DropFK e :: map DropFK ext) with (map DropFK (e :: ext)). rewrite tc_added_mapdrop.
+      simpl. apply Permutation_refl.
+  - assert (E1 : flat_map decl (match filter (fun c => negb (is_addfk c)) tcs with
+                               | [] => [] | _ :: _ => [ModifyTable t (filter (fun c => negb (is_addfk c)) tcs)] end)
+                 = map (fk_entry (t_name t)) (flat_map tc_added (filter (fun c => negb (is_addfk c)) tcs))).
+    { destruct (filter (fun c => negb (is_addfk c)) tcs); [reflexivity|]. unfold decl. simpl. rewrite app_nil_r. reflexivity. }
+    assert (E2 : flat_map decl (match filter is_addfk tcs with
+                               | [] => [] | _ :: _ => [ModifyTable t (filter is_addfk tcs)] end)
+                 = map (fk_entry (t_name t)) (flat_map tc_added (filter is_addfk tcs))).
+    { destruct (filter is_addfk tcs); [reflexivity|]. unfold decl. simpl. rewrite app_nil_r. reflexivity. }
+    unfold decl in E1, E2. rewrite E1, E2. unfold nm. simpl.
+    rewrite <- map_app, <- flat_map_app. apply Permutation_map. apply Permutation_flat_map.
+    apply (filter_perm is_addfk tcs).
+Qed.
+
+Lemma detach_decl cs : Permutation (flat_map decl (detachReferences cs)) (flat_map decl cs).
+Proof.
+  unfold detachReferences. rewrite flat_map_app.
+  induction cs as [|x cs IH]; simpl; [constructor|].
+  rewrite !flat_map_app.
+  apply perm_trans with ((flat_map decl (det_planned x) ++ flat_map decl (det_deferred x)) ++
+                         (flat_map decl (flat_map det_planned cs) ++ flat_map decl (flat_map det_deferred cs))).
+  - rewrite <- !app_assoc. apply Permutation_app_head.
+    rewrite !app_assoc. apply Permutation_app_tail. apply Permutation_app_comm.
+  - apply Permutation_app; [apply decl_detach1|exact IH].
+Qed.
+
+Theorem plan_once_fks cs l : plan cs = POk l -> Permutation (flat_map decl cs) (flat_map decl l).
+Proof.
+  intros H. destruct (plan_once cs l H) as [d [Hd [Hp _]]].
+  apply perm_trans with (flat_map decl d); [|apply Permutation_flat_map; exact Hp].
+  pose proof (DetachCycles_spec cs d Hd) as Hs. unfold detach_spec in Hs.
+  destruct (sortMap cs) as [| |sorted]; [destruct Hs| |].
+  - subst d. apply Permutation_sym. apply detach_decl.
+  - apply Permutation_flat_map. apply (proj1 Hs).
 Qed.
